@@ -14,7 +14,8 @@
      d_reserved_raw      reserved words are not quoted (pinned; repaired a1f7894)
      d_dot_safe          '.' counts as a safe identifier character, so the quoted identifier a.b is printed raw
                          (UNREPAIRED: pinned tests build an Identifier named u.name and expect u.name)
-     codec: d_ctrlz_escape  Ctrl-Z escaped as \Z (pinned; repaired 8c4ab20);  d_drop_nul  NUL dropped (UNREPAIRED, deliberate)
+     codec: d_ctrlz_escape  Ctrl-Z escaped as \Z (pinned; repaired 8c4ab20);  d_drop_nul  NUL dropped (UNREPAIRED, deliberate);
+            d_triple_quote  a leading quote written as two quotes, so the text opens a triple-quoted string (pinned; repaired)
    Nodes / shapes that are not modelled give [None] (sub-queries, EXISTS, ANY/ALL, aliases, window calls, ...).
    Definitions only. *)
 From Coq Require Import List String Ascii Bool Arith NArith.
@@ -283,10 +284,10 @@ Definition operand (pf : pflags) (e : gexpr) (ctx : nat) : option (list token) :
 (* ------------------------------------------------------------------------------------------------ *)
 (* byte-level codecs (ASCII contents) *)
 
-Record cflags := CFlags { d_ctrlz_escape : bool; d_drop_nul : bool }.
-Definition codec_ok := CFlags false false.
-Definition codec_tree := CFlags false true.
-Definition codec_pinned := CFlags true true.
+Record cflags := CFlags { d_ctrlz_escape : bool; d_drop_nul : bool; d_triple_quote : bool }.
+Definition codec_ok := CFlags false false false.
+Definition codec_tree := CFlags false true false.
+Definition codec_pinned := CFlags true true true.
 
 Definition ch (n : nat) : ascii := ascii_of_nat n.
 Definition c_quote := ch 39.      (* single quote *)
@@ -294,20 +295,23 @@ Definition c_bslash := ch 92.     (* backslash *)
 Definition c_dquote := ch 34.     (* double quote *)
 Definition c_btick := ch 96.      (* backtick *)
 
-(* escapeStringLiteral *)
-Fixpoint escape_lit (cf : cflags) (s : string) : string :=
+(* escapeStringLiteral; [first]: nothing has been written yet (a quote is then written with a backslash, since three
+   quote characters in a row open a triple-quoted string) *)
+Fixpoint escape_lit_at (cf : cflags) (first : bool) (s : string) : string :=
   match s with
   | EmptyString => EmptyString
   | String c r =>
-      let rest := escape_lit cf r in
-      if Ascii.eqb c c_quote then String c_quote (String c_quote rest)
+      let rest := escape_lit_at cf false r in
+      if Ascii.eqb c c_quote then
+        (if first && negb (d_triple_quote cf) then String c_bslash (String c_quote rest) else String c_quote (String c_quote rest))
       else if Ascii.eqb c c_bslash then String c_bslash (String c_bslash rest)
-      else if Ascii.eqb c (ch 0) then (if d_drop_nul cf then rest else String c rest)
+      else if Ascii.eqb c (ch 0) then (if d_drop_nul cf then escape_lit_at cf first r else String c rest)
       else if Ascii.eqb c (ch 10) then String c_bslash (String "n"%char rest)
       else if Ascii.eqb c (ch 13) then String c_bslash (String "r"%char rest)
       else if Ascii.eqb c (ch 26) && d_ctrlz_escape cf then String c_bslash (String "Z"%char rest)
       else String c rest
   end.
+Definition escape_lit (cf : cflags) (s : string) : string := escape_lit_at cf true s.
 Definition lit_text (cf : cflags) (s : string) : string := String c_quote (escape_lit cf s ++ String c_quote "").
 
 (* the body of readQuotedString after the opening quote, on ASCII text: (content, rest after the closing quote);
@@ -338,10 +342,28 @@ Fixpoint read_lit (fuel : nat) (s : string) (buf : string) : option (string * st
           else read_lit f r (buf ++ String c "")
       end
   end.
-(* reading a literal text: opening quote, body *)
+(* readTripleQuotedString: no escapes; ends at three quote characters *)
+Fixpoint read_triple (s : string) (buf : string) : option (string * string) :=
+  match s with
+  | EmptyString => None
+  | String c r =>
+      match r with
+      | String c2 (String c3 r3) =>
+          if Ascii.eqb c c_quote && Ascii.eqb c2 c_quote && Ascii.eqb c3 c_quote then Some (buf, r3)
+          else read_triple r (buf ++ String c "")
+      | _ => read_triple r (buf ++ String c "")
+      end
+  end.
+Definition two_quotes (r : string) : bool :=
+  match r with String a (String b _) => Ascii.eqb a c_quote && Ascii.eqb b c_quote | _ => false end.
+(* reading a literal text: opening quote (three of them open a triple-quoted string), body *)
 Definition read_lit_text (s : string) : option (string * string) :=
   match s with
-  | String c r => if Ascii.eqb c c_quote then read_lit (S (String.length r)) r "" else None
+  | String c r =>
+      if Ascii.eqb c c_quote then
+        if two_quotes r then match r with String _ (String _ r3) => read_triple r3 "" | _ => None end
+        else read_lit (S (String.length r)) r ""
+      else None
   | EmptyString => None
   end.
 
@@ -438,14 +460,24 @@ Definition print_case (pf : pflags) (c : gexpr * sx * list token) : N :=
            end
   end.
 
+(* byte strings are emitted as code lists *)
+Definition str_of (l : list nat) : string := fold_right (fun n s => String (ascii_of_nat n) s) EmptyString l.
+
 (* codec cases: content, the text Go wrote, what the real tokenizer read back (None = rejected) *)
-Definition lit_case (cf : cflags) (c : string * string * option string) : bool :=
+Definition lit_case (cf : cflags) (c : list nat * list nat * option (list nat)) : bool :=
   match c with
   | (s, text, back) =>
-      String.eqb (lit_text cf s) text
-      && match read_lit_text text, back with
-         | Some (v, EmptyString), Some b => String.eqb v b
+      String.eqb (lit_text cf (str_of s)) (str_of text)
+      && match read_lit_text (str_of text), back with
+         | Some (v, EmptyString), Some b => String.eqb v (str_of b)
          | None, None => true
          | _, _ => false
          end
+  end.
+(* identifier cases: name, the text Go wrote, what the tokenizer read back when it is one quoted-identifier token *)
+Definition ident_case (pf : pflags) (c : list nat * list nat) : bool :=
+  match c with
+  | (n, text) =>
+      let name := str_of n in
+      if needs_quote pf name then String.eqb (quote_ident name) (str_of text) else String.eqb name (str_of text)
   end.
